@@ -120,6 +120,24 @@ theorem drawn_so_far_every_program (m : Machine) (inp : Nat → BitVec 8) (v : V
     unfold Ctl.visibleMem
     rw [g.amach]
 
+/-- … and since that event the displayed bytes have not changed: at any point of any program the
+6912 bytes of the RAM bank on display are what they were right after the last touching event of
+the frame in progress (so "the displayed RAM as of that event" above is the displayed RAM now). -/
+theorem displayed_bytes_since_anchor (m : Machine) (inp : Nat → BitVec 8) (v : Variant) (n : Nat) (s : Cpu)
+    (off : Nat) (hoff : off < 0x1B00) :
+    let z := (Z80.run v n (s, VBus.new m inp)).2
+    z.ctl.mem.ramByte (Spec.visibleBank m z.ctl.port7ffd) off =
+      z.anchor.mem.ramByte (Spec.visibleBank m z.anchor.port7ffd) off := by
+  intro z
+  have g : SGood m z := program_keeps_good m v n s _ (SGood.new m inp)
+  have h1 := active_mem z.ctl g.wf g.coh off hoff
+  have h2 := active_mem z.anchor g.awf g.acoh off hoff
+  have h3 := g.inv.vis off hoff
+  unfold Ctl.visibleMem at h1 h2
+  rw [g.mach] at h1
+  rw [g.amach] at h2
+  rw [← h1, ← h2, h3]
+
 /-- **The delivered frame, for every program.** Once a frame has been completed, the canvas the
 host is handed is: the pixels the beam had passed at the last touching event of that frame as
 they had been drawn by then; every other pixel the standard decode of the displayed RAM bank as of
@@ -166,9 +184,6 @@ theorem frame_is_decode_every_program (m : Machine) (inp : Nat → BitVec 8) (v 
   have e2 : (y * 256 + x) / 256 = y := by omega
   show z.ctl.screen.front.getD (y * 256 + x) d = _
   rw [hpix, h00, if_neg (by omega), e1, e2]
-
-theorem writeInternal_port (c : Ctl) (a : BitVec 16) (v : BitVec 8) : (c.writeInternal a v).port7ffd = c.port7ffd := by
-  unfold Ctl.writeInternal; simp only; split <;> rfl
 
 /-- **A CPU write before / after the beam, inside any program.** `z1` is any state a program can be
 in (`SGood`). A store of `b` at `a` hits the displayed bytes; then the program goes on — any
@@ -231,9 +246,6 @@ theorem cpu_write_before_after_beam (m : Machine) (z1 : VBus) (h1 : SGood m z1) 
 
 /-! Non-vacuity -/
 
-theorem new_ramByte (m : Machine) (rb off : Nat) : (Mem.new m).ramByte rb off = 0 := by
-  cases m <;> simp only [Mem.new, Mem.ramByte, getD_replicate] <;> split <;> rfl
-
 /-- **The statements above do say something: a program that completes untouched frames.** The
 power-on machine of the model has all-zero memory, so with interrupts disabled the CPU executes
 NOPs (one 4-T opcode fetch each, plus ULA delays) for ever. After 17727 or more instructions — from
@@ -276,5 +288,13 @@ example : (Ctl.new .k48).hitsDisplayed 0x4000 = true ∧ (Ctl.new .k48).hitsDisp
     (Ctl.new .k48).hitsDisplayed 0x0000 = false ∧
     (Ctl.new .k128).hitsDisplayed 0x4000 = true ∧ (Ctl.new .k128).hitsDisplayed 0xC000 = false := by
   decide
+
+/-- the bus at work (kernel evaluation of one `emulate`): `LD (HL),A` at 0x8000 with HL = 0x4000,
+A = 0xFF on the 48K — a 4-T fetch and a 3-T write cycle; the store hits the displayed bytes (one
+touching event), RAM page 0 and the shadow screen both hold the new byte -/
+example : let z := (Z80.run .hw 1 ({ pc := 0x8000, h := 0x40, a := 0xFF },
+      (VBus.new .k48 (fun _ => 0xFF)).store 0x8000 0x77)).2
+    z.touches = 1 ∧ z.ctl.frameClocks = 7 ∧ z.ctl.mem.ramByte 0 0 = 0xFF ∧ (z.ctl.screen.bank false).mem 0 = 0xFF := by
+  decide +kernel
 
 end ZxVerif.C08Sys
